@@ -32,7 +32,7 @@ CHECKS = {
     "C04": (
         "progmc c04",
         "bounded-exhaustive enumeration of (result type, value, block placement) cases: the comptime copy (evaluated by the real comptime JIT) and the runtime copy of the same expression are both printed by an executable built by the real CLI and compared with the model value",
-        "33 result types (every int width incl. 128-bit at boundary values, f32/f64, bool, arrays incl. nested, structs incl. nested and float fields, enums with payloads and custom discriminants, optionals, error unions, arrays/structs of sum types; two values per top-level shape) x 8 placements (annotated global, local ::, local :=, inline argument, nested comptime, block with locals and a loop, block calling a helper, field of a struct literal) + 16 computing blocks (loops, helper calls, const-global reads, wrap-around at 8/32 bits, shifts, signed division, float->int, narrowing) each as local and as global + `type` results used as annotations + strings + 13 side-effect programs (marker printed exactly once by the compiler, never by the program, under 0/1/3 uses, in a loop, in a function called twice, second run; value-yielding, void and zero-sized blocks).",
+        "33 result types (every int width incl. 128-bit at boundary values, f32/f64, bool, arrays incl. nested, structs incl. nested and float fields, enums with payloads and custom discriminants, optionals, error unions, arrays/structs of sum types; two values per top-level shape) x 9 placements (annotated global whose block yields the literal, annotated global whose block yields a local of the annotated type, local ::, local :=, inline argument, nested comptime, block with locals and a loop, block calling a helper, field of a struct literal) + 16 computing blocks (loops, helper calls, const-global reads, wrap-around at 8/32 bits, shifts, signed division, float->int, narrowing) each as local and as global + `type` results used as annotations + strings + 13 side-effect programs (marker printed exactly once by the compiler, never by the program, under 0/1/3 uses, in a loop, in a function called twice, second run; value-yielding, void and zero-sized blocks).",
         "Bodies are deterministic; pointer- and function-valued results are rejected by design and not generated; values beyond the listed ones are not covered.",
         "§4 C04",
     ),
@@ -46,7 +46,7 @@ CHECKS = {
     "C11": (
         "progmc c11",
         "bounded-exhaustive enumeration of (sum type, arm list) cases against the acceptance rule of the statement; every accepted switch executed on every variant x two payloads against a dispatch model",
-        "20 sum types plus ~500 discriminant patterns (every assignment of {automatic, 0, 1, 2, 5} to 3 and 4 variants: exhaustive switch and the #is_variant matrix on every variant) (enums of 1..3 (thorough 4) variants with payload patterns none/u8/i64/struct and discriminants default or custom incl. 128, 200, 255; ?i32, ?struct, ?^i32, ?enum; Err!i32, Err!struct) x every arm list of length <= n+1 over {each variant fully qualified, each variant shorthand, `_`, a variant of a structurally identical foreign enum, an unknown shorthand, a non-type expression} (at most one non-own arm): accepted iff only own variants, none twice, and all covered or exactly one default arm which is last; accepted switches are executed for every variant with two payloads: exactly the arm of the variant runs, bound to the payload (default arm: the whole value). Plus switches over `distinct` wrappers of an enum, an optional and an error union.",
+        "20 sum types plus ~500 discriminant patterns (every assignment of {automatic, 0, 1, 2, 5} to 3 and 4 variants: exhaustive switch and the #is_variant matrix on every variant) (enums of 1..3 (thorough 4) variants with payload patterns none/u8/i64/struct and discriminants default or custom incl. 128, 200, 255; ?i32, ?struct, ?^i32, ?enum; Err!i32, Err!struct) x every arm list of length <= n+1 over {each variant fully qualified, each variant shorthand, `_`, a variant of a structurally identical foreign enum, an unknown shorthand, a non-type expression} (at most one non-own arm): accepted iff only own variants, none twice, and all covered or exactly one default arm which is last; accepted switches are executed for every variant with two payloads: exactly the arm of the variant runs, bound to the payload (default arm: the whole value). Plus switches over `distinct` wrappers of an enum, an optional and an error union, and over error unions whose two sides look alike (two structs with identical fields, two distincts of i32, enum!distinct u8).",
         "Lists that cover everything and also end in a default arm are executed but not judged for acceptance; 6-variant enums are not reached.",
         "§4 C11",
     ),
@@ -67,7 +67,7 @@ CHECKS = {
     "C15": (
         "progmc c15",
         "bounded-exhaustive enumeration of the (expression kind, const position) matrix, each compiled by the real CLI, against the README's const rule; accepted cells executed",
-        "17 integer expression kinds (literal, `::` local of literal / of `::` local / of comptime block, global, global of global, comptime global, global declared after use, imported global (of global), `:=` local, `::` of `:=`, `::` of call, call, struct member, runtime parameter, runtime arithmetic) x {array length, enum discriminant, comptime argument} and 15 type expression kinds x {annotation, comptime type argument, array element type}, comptime parameters in every position, also declared after / between runtime parameters: accepted iff const by the rule, rejections must be 'not constant' diagnostics; accepted array lengths are observed (`len`, last element) for lengths 1, 2, 5, 17, 100.",
+        "21 integer expression kinds (literal, `::` local of literal / of `::` local / of comptime block, global, global of global, comptime global, global declared after use, imported global (of global), `:=` local, `::` of `:=`, `::` of `::` of `:=`, a local declared without a value (also assigned later, also behind a `::`), `::` of call, call, struct member, runtime parameter, runtime arithmetic) x {array length, enum discriminant, comptime argument} and 16 type expression kinds x {annotation, comptime type argument, array element type}, comptime parameters in every position, also declared after / between runtime parameters: accepted iff const by the rule, rejections must be 'not constant' diagnostics; accepted array lengths are observed (`len`, last element) for lengths 1, 2, 5, 17, 100.",
         "Arithmetic on literals, parenthesised literals and a bare comptime block in the position are not judged; extern globals are not generated.",
         "§4 C15",
     ),
